@@ -29,7 +29,7 @@ def run(res, tier="quick", seed=0, widen=False):
     maxw = 3 if tier == "quick" else 4
     res.rule = ("kernel level: all code sequences of length <= %d over {-1,0,1} (sampled at the top lengths in quick) x %d seeded (kind, dtype, values, window<=%d, "
                 "min_periods, mask) draws; kinds sum/mean/min/max/shift/diff; dtypes f8, i8 (down-cast), datetime64/timedelta64 incl. NaT and values above 2^60; "
-                "plus a deep stream of long (3-14 rows) mostly-single-group series with ties, ~30%% nulls, window 1..6 and every min_periods; API level: GroupBy.rolling_*/shift/diff in both layouts; thorough adds windows 32767/32768/40000; non-trivial = >= 2 groups or null key/value or mask"
+                "plus a deep stream of long (3-14 rows) mostly-single-group series with ties, ~30%% nulls, window 1..6 and every min_periods; API level: GroupBy.rolling_*/shift/diff in both layouts; a magnitude stream (outliers 1e16, 2^60, 1e8+0.1, +-inf, 1e308 through windows 1..4, two groups, nulls, masks) against the exact rational window sum within the proved error bound; thorough adds windows 32767/32768/40000; non-trivial = >= 2 groups or null key/value or mask"
                 % (maxlen, per, maxw))
     cases = []
     for L in range(0, maxlen + 1):
